@@ -37,6 +37,7 @@ func Run(run *vh.Run) {
 	run.Floor("simulations of coming transactions on noisy followers during replay", run.Get("noisy_simulations_of_coming_transactions_during_replay"), int64(run.N(200, 2000)))
 	run.Floor("followers compared", run.Get("followers_compared"), int64(run.N(6, 60)))
 	run.Floor("wall-clock sensitive transactions (touches of vesting accounts with end time between block time and a follower's clock)", run.Get("wallclock_sensitive_txs"), int64(run.N(4, 40)))
+	run.Floor("transactions that share their nonce with another transaction of the same sender in the block", run.Get("twin_nonce_txs"), int64(run.N(10, 60)))
 	run.Floor("multi-destroy transactions", run.Get("multi_destroy_txs"), int64(run.N(3, 30)))
 	run.Floor("validator-set updates", run.Get("blocks_with_validator_updates"), 1)
 	run.Floor("claims from several validators in one transaction (order-sensitive)", run.Get("multi_validator_claim_txs"), int64(run.N(3, 30)))
@@ -171,6 +172,7 @@ func oneHistory(run *vh.Run, label string, hi, nBlocks int) {
 		}
 	}
 	run.Count("multi_destroy_txs", g.stats["multi-destroy"])
+	run.Count("twin_nonce_txs", g.stats["twin-nonce"])
 	run.Count("blocks_recorded", len(leader))
 	ntx := 0
 	for bi, t := range leader {
